@@ -3,6 +3,7 @@ package c18
 import (
 	"fmt"
 	"strings"
+	"sync/atomic"
 
 	"github.com/tjfoc/gmsm/gmtls"
 
@@ -83,6 +84,10 @@ func tlsUnit(mi int, dir int, only int) harness.Unit {
 					}
 					return [][]byte{x}
 				}}
+				if tooManyHangs() {
+					c.Add("inputs_skipped_after_a_hang", 1)
+					return
+				}
 				c.Add("evaluations", 1)
 				c.Distinct("nontrivial", append([]byte(fmt.Sprintf("%d/%d/%d/", mi, dir, i)), repl...))
 				o := run(e)
@@ -93,6 +98,7 @@ func tlsUnit(mi int, dir int, only int) harness.Unit {
 				}
 				if len(o.Stuck) > 0 || o.Horizon {
 					c.Violate(fmt.Sprintf("hang:tls-%s:%s", mn, kind), fmt.Sprintf("[%s] %v", m.name, o.Stuck), nil, nil)
+					atomic.AddInt32(&procHangs, 1)
 				}
 			}
 			body := msg[4:]
